@@ -85,7 +85,7 @@ class Gen:
         r = self.r
         if depth <= 0 or r.random() < 0.25:
             return self.leaf(sc, kind)
-        if r.random() < 0.08:
+        if r.random() < 0.03:
             kind2 = self.any_kind()       # occasionally ill-typed on purpose: error paths
             return self.expr(sc, kind2, depth - 1)
         if kind == "num":
